@@ -73,8 +73,25 @@ def discharge(ob: Obligation, timeout_ms: Optional[int] = None) -> Obligation:
         ob.status, ob.solver = "discharged", "z3-5.1"
     elif r == z3.sat:
         ob.status, ob.solver = "violated", "z3-5.1"
-        ob.model = _model_dict(s.model())
-        ob._z3model = s.model()  # type: ignore[attr-defined]
+        m = s.model()
+        # prefer a small counter-model (replayable shapes): bound the integer and real inputs
+        try:
+            s.push()
+            s.set("timeout", 3000)
+            for d in m.decls():
+                if d.arity() == 0 and d.range() == z3.IntSort():
+                    c = z3.Int(d.name())
+                    s.add(c <= 12, c >= -12)
+                elif d.arity() == 0 and d.range() == z3.RealSort() and d.name() != "pi":
+                    c = z3.Real(d.name())
+                    s.add(c <= 16, c >= -16)
+            if s.check() == z3.sat:
+                m = s.model()
+            s.pop()
+        except z3.Z3Exception:
+            pass
+        ob.model = _model_dict(m)
+        ob._z3model = m  # type: ignore[attr-defined]
     else:
         # second opinions
         text = s.to_smt2()
@@ -114,12 +131,45 @@ def discharge(ob: Obligation, timeout_ms: Optional[int] = None) -> Obligation:
     return ob
 
 
+def _int_consts(hyps: List[z3.BoolRef]) -> List[z3.ExprRef]:
+    out: Dict[str, z3.ExprRef] = {}
+    seen = set()
+    stack = list(hyps)
+    while stack:
+        x = stack.pop()
+        if x.get_id() in seen:
+            continue
+        seen.add(x.get_id())
+        if z3.is_const(x) and x.decl().kind() == z3.Z3_OP_UNINTERPRETED and x.sort() == z3.IntSort():
+            out[str(x)] = x
+        stack.extend(x.children())
+    return list(out.values())
+
+
 def cover(hyps: List[z3.BoolRef], timeout_ms: int = 5000) -> str:
-    """Vacuity guard: the hypotheses must be satisfiable."""
+    """Vacuity guard: the hypotheses must be satisfiable.  On `unknown` (irrational
+    witnesses for the root axioms) the search is helped by pinning the integer inputs to
+    small values; any model found is a genuine model of the hypotheses."""
     s = z3.Solver()
     s.set("timeout", timeout_ms)
     s.add(*hyps)
-    return str(s.check())
+    r = s.check()
+    if r != z3.unknown:
+        return str(r)
+    ints = _int_consts(hyps)
+    for val in (1, 2, 3, 4):
+        for k in range(len(ints) + 1):
+            # pin all but the first k integer constants
+            s.push()
+            for c in ints[k:]:
+                s.add(c == val)
+            rr = s.check()
+            s.pop()
+            if rr == z3.sat:
+                return "sat"
+            if k >= 3:
+                break
+    return "unknown"
 
 
 def eval_in_model(ob: Obligation, e: z3.ExprRef) -> str:
